@@ -224,12 +224,13 @@ struct BlockKind : KindBase {
 };
 
 struct TableKind : KindBase {
+  bool compact = false;  // the optional third argument of CheckpointWriter::openTable
   std::vector<std::vector<RowVal>> vals;
   size_t n() const override { return vals.size(); }
   void write(CheckpointWriter& w, const std::string& name, size_t i) override {
     // the way QMNBList / AtomContainer / AOBasis use it
     const std::vector<RowVal>& rows = vals.at(i);
-    CptTable table = w.openTable<VRow>(name, rows.size());
+    CptTable table = compact ? w.openTable<VRow>(name, rows.size(), true) : w.openTable<VRow>(name, rows.size());
     std::vector<VRow::data> dv(rows.size());
     for (size_t k = 0; k < rows.size(); ++k) {
       dv[k].id = rows[k].id;
@@ -316,9 +317,11 @@ static std::map<std::string, std::unique_ptr<KindBase>> MakeKinds() {
       {{}, {-1}, {0, -1, 2147483647L, 9223372036854775807L, std::numeric_limits<Index>::min()}, {3, 4, 5}}, {},
       {8, 8}, BlobVec<Index>));
   K["vuns"].reset(new Kind<vector<unsigned>>({{}, {4294967295u}, {1u, 2u, 3u}}, {}, {6u}, BlobVec<unsigned>));
+  vector<double> bigv(10000);
+  for (size_t i = 0; i < bigv.size(); ++i) bigv[i] = 0.25 * static_cast<double>(i) - 7.0;
   K["vdbl"].reset(new Kind<vector<double>>(
-      {{}, {-0.0}, {0.0, -0.0, den, 1e308, nan1, nan2, inf}, {1.5, 2.5}, {nan1}}, {}, {4.0, 4.0, 4.0, 4.0},
-      BlobVec<double>));
+      {{}, {-0.0}, {0.0, -0.0, den, 1e308, nan1, nan2, inf}, {1.5, 2.5}, {nan1}, bigv /* 80 kB */}, {},
+      {4.0, 4.0, 4.0, 4.0}, BlobVec<double>));
   K["vstr"].reset(new Kind<vector<string>>({{},
                                             {""},
                                             {"a"},
@@ -336,7 +339,7 @@ static std::map<std::string, std::unique_ptr<KindBase>> MakeKinds() {
     sp(1, 2) = nan2;
     K["matd"].reset(new Kind<M>({M(0, 0), M(3, 0), M(0, 3), Seq<M>(1, 4, 1.0), Seq<M>(4, 1, 2.0),
                                  Seq<M>(3, 2, 3.0), Seq<M>(2, 3, 4.0), Seq<M>(5, 5, 5.0), sp, Seq<M>(1, 1, 6.0),
-                                 Seq<M>(17, 9, -40.0), M(1, 0), M(0, 1)},
+                                 Seq<M>(17, 9, -40.0), M(1, 0), M(0, 1), Seq<M>(100, 100, 0.5) /* 80 kB */},
                                 M(), M::Constant(2, 5, 77.0), BlobMat<M>));
   }
   {
@@ -416,7 +419,15 @@ static std::map<std::string, std::unique_ptr<KindBase>> MakeKinds() {
                 {{7, 3.0, "r1", 1.0f}, {8, 4.0, "r2", 2.0f}, {9, 5.0, "r3", 3.0f}, {10, 6.0, "r4", 4.0f},
                  {11, 7.0, "r5", 5.0f}},
                 {}};
+    std::vector<RowVal> bigt;  // 3500 rows of 32 bytes: 112 kB
+    for (Index i = 0; i < 3500; ++i) bigt.push_back({i, 0.5 * static_cast<double>(i), "r" + std::to_string(i % 7), 1.0f});
+    tk->vals.push_back(bigt);
     K["tab"].reset(tk);
+    // the same (small) tables written with openTable(name, rows, compact = true)
+    auto* tc = new TableKind();
+    tc->compact = true;
+    tc->vals.assign(tk->vals.begin(), tk->vals.begin() + 5);
+    K["tabc"].reset(tc);
   }
   return K;
 }
@@ -593,7 +604,7 @@ int main() {
             std::cout << "val " << kv.first << " " << i << " ";
             for (size_t d = 0; d < b.shape.size(); ++d) std::cout << (d ? "x" : "") << b.shape[d];
             if (b.shape.empty()) std::cout << "scalar";
-            std::cout << " " << Describe(b) << std::endl;
+            std::cout << " " << b.bytes.size() << " " << Describe(b) << std::endl;
           }
         std::cout << "ok" << std::endl;
       } else {
